@@ -277,6 +277,19 @@ package jsonschema
 //@     invariant buckets: new(hashes) && (forall h int {has(hashes, h)} :: has(hashes, h) ==> newOrNil(hashes[h]) && allocated(hashes[h]) && (isnil(hashes[h]) || fresh(hashes[h])))
 //@     invariant hashes: new(hashes) && (forall h int, k int :: has(hashes, h) ==> newOrNil(hashes[h]) && allocated(hashes[h]) && (0 <= k && k < len(hashes[h]) ==> 0 <= hashes[h][k] && hashes[h][k] < $i))
 
+// applyDefaults (property C15), as obligations at the three places where the instance map is written:
+// a required property is never filled; the default is inserted only for a missing key and is the bytes the
+// subschema declares; a present value is only replaced by the result of recursing on a copy of itself;
+// a container is created only for a missing key without a default of its own.
+//@ contract (*state).applyDefaults(st, instancep, schema)
+//@   pure
+//@   atcall[C15] "(reflect.Value).SetMapIndex" notrequired: !(has(schemaInfo.isRequired, prop) && schemaInfo.isRequired[prop])
+//@   atcall[C15] "(reflect.Value).SetMapIndex" where: $arg0 == instance && $arg1 == rvof(anyOf(prop, "string"))
+//@   atcall[C15] "(reflect.Value).SetMapIndex#1" missing1: kind(val) == 0 && !isnil(subschema.Default)
+//@   atcall[C15] "(reflect.Value).SetMapIndex#2" present2: kind(val) != 0
+//@   atcall[C15] "(reflect.Value).SetMapIndex#3" missing3: kind(val) == 0 && isnil(subschema.Default)
+//@   atcall[C15] "encoding/json.Unmarshal#1" declared: $arg0 == subschema.Default
+
 //@ contract property(v, name)
 //@   requires kind: kind(v) == 21 || kind(v) == 25
 //@   requires keytype: kind(v) == 21 ==> (tkind(tkey(rtype(v))) == 24 || tkind(tkey(rtype(v))) == 20)
